@@ -470,6 +470,19 @@ def mesonExeParse (args : List Str) : ExeParse :=
       if cmd ≠ [] || (nonEmpty? st.capture).isSome || (nonEmpty? st.feed).isSome then .usageError
       else .unpickle f
 
+/-! ## `meson test`: the command of one test run (`mtest.py`)
+
+`SingleTestRunner._get_cmd` = `TestHarness.get_wrapper(options) + test_cmd` (native build, program
+found: `test_cmd = test.fname`), and `SingleTestRunner.run` starts
+`self.cmd + self.test.cmd_args + self.options.test_args`.  The wrapper is `--wrapper` from the
+command line or the `exe_wrapper` of the selected `add_test_setup`. -/
+
+def testCmd (wrapper prog args extra : List Str) : List Str := wrapper ++ prog ++ args ++ extra
+
+/-- the commands of all runners of one `meson test` invocation (one wrapper, one `--test-args`) -/
+def runnerCmds (wrapper extra : List Str) (tests : List (List Str × List Str)) : List (List Str) :=
+  tests.map (fun t => testCmd wrapper t.1 t.2 extra)
+
 /-! ## Consumer specification 1: Ninja's evaluation of a binding value
 
 From `lexer.in.cc` (`ReadEvalString`, `path = false`) and `eval_env.cc`.  A value is one line.
